@@ -21,10 +21,11 @@ theorem listener_survives_any_stream (acl : Acl) (ms : List Decoded) :
     ∀ o ∈ ms.map (handleMessage acl), o ≠ .panic :=
   listener_never_panics acl ms
 
-/-- only complete heads are handed to the replicator, in order; null / incomplete ones are dropped -/
-theorem only_complete_heads_loaded (acl : Acl) (hs : List RawHead) (es : List Entry)
-    (h : syncHeads acl hs [] = .load es) : es = (hs.filter RawHead.complete).map RawHead.entry :=
-  syncHeads_loads_exactly_complete acl hs es h
+/-- only complete heads that the access controller admits are handed to the replicator, in order;
+null / incomplete / refused ones are dropped -/
+theorem only_complete_admitted_heads_loaded (acl : Acl) (hs : List RawHead) (es : List Entry)
+    (h : syncHeads acl hs [] = .load es) : es = (hs.filter (RawHead.loadable acl)).map RawHead.entry :=
+  syncHeads_loads_exactly_loadable acl hs es h
 
 /-- a malformed message never stops a later valid one from being handled: the outcome for a message
 does not depend on what preceded it -/
